@@ -82,7 +82,7 @@ type outcome struct {
 	states int // maximal number of accepting states owned by one terminal
 }
 
-func inProcess(src string) (o outcome, err error) {
+func inProcess(src string, countStates bool) (o outcome, err error) {
 	dir, err := os.MkdirTemp("", "c15in")
 	if err != nil {
 		return o, err
@@ -94,7 +94,8 @@ func inProcess(src string) (o outcome, err error) {
 			o.status, o.diag = "parse-error", clean(e.Error())
 			return
 		}
-		if _, tm, derr := sp.DFA(); derr == nil {
+		if !countStates {
+		} else if _, tm, derr := sp.DFA(); derr == nil {
 			for _, ss := range tm {
 				if len(ss) > o.states {
 					o.states = len(ss)
@@ -157,10 +158,75 @@ func sameFiles(a, b map[string]string) bool {
 	return true
 }
 
+// derivation is what emerge derives from a specification before anything is written: grammar, definitions, levels,
+// token automaton and LALR(1) table or the diagnostics of each step.  It is cheap, so it is repeated back to back
+// (state that survives from one invocation to the next, e.g. in a pool, is most likely to show then).
+func derivation(src string, full bool) (string, error) {
+	var b strings.Builder
+	perr := rec.Guard(func() {
+		sp, e := spec.Parse("in.ebnf", strings.NewReader(src))
+		if e != nil {
+			fmt.Fprintf(&b, "parse-error: %s\n", e)
+			return
+		}
+		fmt.Fprintf(&b, "grammar: %v\n", sp.Grammar)
+		for _, d := range sp.Definitions {
+			fmt.Fprintf(&b, "def %s=%q regex=%v pos=%v\n", d.Terminal, d.Value, d.IsRegex, d.Pos)
+		}
+		for i, l := range sp.Precedences {
+			fmt.Fprintf(&b, "level%d %s\n", i, l)
+		}
+		if !full {
+			return
+		}
+		if d, _, derr := sp.DFA(); derr != nil {
+			fmt.Fprintf(&b, "dfa-error: %s\n", derr)
+		} else {
+			fmt.Fprintf(&b, "dfa: %x\n", sha256.Sum256([]byte(d.String())))
+		}
+		nprods := 0
+		for range sp.Grammar.Productions.All() {
+			nprods++
+		}
+		if nprods <= 12 {
+			if T, terr := sp.LALRParsingTable(); terr != nil {
+				fmt.Fprintf(&b, "lalr-error: %s\n", terr)
+			} else if T != nil {
+				fmt.Fprintf(&b, "lalr: %x\n", sha256.Sum256([]byte(T.String())))
+			}
+		}
+	})
+	return clean(b.String()), perr
+}
+
 func checkSpec(src string, withProcess bool) (first outcome, err error) {
-	const k = 5
+	// invocations 0-3: grammar, definitions and levels only, back to back; 4 and 5: with automaton and table
+	var d0, d4 string
+	for i := 0; i < 6; i++ {
+		d, err := derivation(src, i >= 4)
+		if err != nil {
+			if strings.Contains(err.Error(), "ComputeLALR1Kernels") || strings.Contains(err.Error(), "lookahead") {
+				break // listed dependency findings (cyclic / unproductive grammars) are C06's and C14's subject
+			}
+			return first, fmt.Errorf("%v\nspecification:\n%s", err, src)
+		}
+		switch {
+		case i == 0:
+			d0 = d
+		case i == 4:
+			d4 = d
+		}
+		want := d0
+		if i >= 4 {
+			want = d4
+		}
+		if d != want || (i == 4 && !strings.HasPrefix(d, d0)) {
+			return first, fmt.Errorf("what is derived from the same input differs between two in-process invocations:\n--- invocation 0:\n%s\n--- invocation %d:\n%s\nspecification:\n%s", d0, i, d, src)
+		}
+	}
+	const k = 2
 	for i := 0; i < k; i++ {
-		o, err := inProcess(src)
+		o, err := inProcess(src, i == 0)
 		if err != nil {
 			return first, fmt.Errorf("%v\nspecification:\n%s", err, src)
 		}
@@ -224,12 +290,12 @@ func genSpec(t *rapid.T) string {
 	var b strings.Builder
 	b.WriteString("grammar det_1;\n")
 	var uses []string
-	lits := rapid.SliceOfNDistinct(rapid.SampledFrom(literalPool), 1, 8, func(s string) string { return s }).Draw(t, "literals")
+	lits := rapid.SliceOfNDistinct(rapid.SampledFrom(literalPool), 1, rec.Pick(5, 8), func(s string) string { return s }).Draw(t, "literals")
 	for _, l := range lits {
 		uses = append(uses, fmt.Sprintf("%q", l))
 	}
 	var decls []string
-	toks := rapid.SliceOfNDistinct(rapid.SampledFrom(regexPool), 0, 6, func(r regexTok) string { return r.name }).Draw(t, "regexTokens")
+	toks := rapid.SliceOfNDistinct(rapid.SampledFrom(regexPool), 0, rec.Pick(4, 6), func(r regexTok) string { return r.name }).Draw(t, "regexTokens")
 	for _, r := range toks {
 		decls = append(decls, r.name+" = "+r.def)
 		uses = append(uses, r.name)
@@ -240,20 +306,25 @@ func genSpec(t *rapid.T) string {
 		decls = append(decls, fmt.Sprintf("%s = %q", name, rapid.SampledFrom([]string{"while", "for", "abc", "a1", "ff", "Z", "Zz"}).Draw(t, "kwv")+fmt.Sprint(i)))
 		uses = append(uses, name)
 	}
-	// simultaneous diagnostics
-	for i, n := 0, rapid.IntRange(0, 3).Draw(t, "undefined"); i < n; i++ {
+	// simultaneous diagnostics (in about half of the specifications; the others are well-formed up to token and
+	// grammar conflicts)
+	defects := 0
+	if rapid.Bool().Draw(t, "illFormed") {
+		defects = 1
+	}
+	for i, n := 0, defects*rapid.IntRange(0, 3).Draw(t, "undefined"); i < n; i++ {
 		uses = append(uses, fmt.Sprintf("UNDEF_%c", 'A'+i))
 	}
-	for i, n := 0, rapid.IntRange(0, 3).Draw(t, "undefinedNonTerminals"); i < n; i++ {
+	for i, n := 0, defects*rapid.IntRange(0, 3).Draw(t, "undefinedNonTerminals"); i < n; i++ {
 		uses = append(uses, fmt.Sprintf("nowhere_%c", 'a'+i))
 	}
-	for i, n := 0, rapid.IntRange(0, 2).Draw(t, "dupValues"); i < n; i++ {
+	for i, n := 0, defects*rapid.IntRange(0, 2).Draw(t, "dupValues"); i < n; i++ {
 		decls = append(decls, fmt.Sprintf("DVA%d = \"dup%d\"", i, i), fmt.Sprintf("DVB%d = \"dup%d\"", i, i))
 	}
-	for i, n := 0, rapid.IntRange(0, 2).Draw(t, "multiDefs"); i < n; i++ {
+	for i, n := 0, defects*rapid.IntRange(0, 2).Draw(t, "multiDefs"); i < n; i++ {
 		decls = append(decls, fmt.Sprintf("MD%d = \"m%da\"", i, i), fmt.Sprintf("MD%d = \"m%db\"", i, i))
 	}
-	for i, n := 0, rapid.IntRange(0, 2).Draw(t, "badPredefs"); i < n; i++ {
+	for i, n := 0, defects*rapid.IntRange(0, 2).Draw(t, "badPredefs"); i < n; i++ {
 		decls = append(decls, fmt.Sprintf("BP%d = $NOPE%d", i, i))
 	}
 	decls = rapid.Permutation(decls).Draw(t, "declOrder")
@@ -282,7 +353,7 @@ func TestRepeatedRunsAgree(t *testing.T) {
 	if _, err := os.Stat(os.Getenv("VERIF_EMERGE_BIN")); err == nil {
 		hasBin = true
 	}
-	rec.Check(t, 160, 8000, func(t *rapid.T) {
+	rec.Check(t, 40, 4000, func(t *rapid.T) {
 		src := genSpec(t)
 		o, err := checkSpec(src, hasBin)
 		ndiag := strings.Count(o.diag, "\n") + 1
